@@ -1267,6 +1267,9 @@ class Interp:
                     return self.mk([vs.index(last)] + args, 'enum')
         if name.startswith('{closure@'):
             return self.mk(args, 'closure:' + name.split('}')[0] + '}')
+        if not args and re.match(r'^[\w:]+$', name) and '::' in name:
+            # unit variant of a library enum we do not model (e.g. std::io::ErrorKind::Other): opaque token
+            return self.mk([name], 'opaque')
         raise Unsupported('constructor %s' % name)
 
     def mkref(self, fr, place):
